@@ -3,7 +3,7 @@ from symx.api import H
 from spec import enc
 from spec import elf_layout as L
 from spec import relocs as R
-from harness.elfkit import Image
+from harness.elfkit import Image, stream_length
 
 PROPERTY = 'C08'
 ASSUMPTIONS = [
@@ -21,6 +21,7 @@ class _Elf:
     def __init__(self, ctx, stream, cls, little, machine='EM_X86_64', arch='x64'):
         S = ctx.lib('elf.structs')
         self.stream = stream
+        self.stream_len = stream_length(stream)
         self.elfclass = cls
         self.little_endian = little
         self.structs = S.ELFStructs(little_endian=little, elfclass=cls)
@@ -296,20 +297,27 @@ def h_plumbing(ctx):
     EF = ctx.lib('elf.elffile')
     img = Image(64, True, machine=62, e_type=1)
     img.section('', sh_type=0)
+    # the section header table has no prescribed order: the relocation section may come after its target (what assemblers emit)
+    # or before it; it names its target through sh_info and its symbol table through sh_link
+    first = cfg.get('order') == 'before'
+    idx = dict(rela=1, info=2, abbrev=3, strtab=4, symtab=5) if first else dict(info=1, abbrev=2, strtab=3, symtab=4, rela=5)
     payload = ctx.bytes('p', 12)
     doff = img.blob(payload)
-    img.section('.debug_info', sh_type=1, sh_offset=doff, sh_size=12)                       # 1
     abbr = img.blob([0])
-    img.section('.debug_abbrev', sh_type=1, sh_offset=abbr, sh_size=1)                      # 2
     stroff = img.blob([0, 0x61, 0])
-    img.section('.strtab', sh_type=3, sh_offset=stroff, sh_size=3)                          # 3
     sval = ctx.uint('st_value', 64)
-    symoff = img.blob(L.encode('SYM', 64, True, {}) + L.encode('SYM', 64, True, dict(st_name=1, st_value=sval, st_info=0x12, st_shndx=1)), align=8)
-    img.section('.symtab', sh_type=2, sh_offset=symoff, sh_size=48, sh_entsize=24, sh_link=3, sh_info=1)     # 4
+    symoff = img.blob(L.encode('SYM', 64, True, {}) + L.encode('SYM', 64, True, dict(st_name=1, st_value=sval, st_info=0x12, st_shndx=idx['info'])), align=8)
     addend = ctx.sint('r_addend', 64)
     roff = ctx.int_range('r_offset', 0, 8)
     reloff = img.blob(L.encode('RELA', 64, True, dict(r_offset=roff, r_info=(1 << 32) | 10, r_addend=addend)), align=8)
-    img.section(relname, sh_type=4, sh_offset=reloff, sh_size=24, sh_entsize=24, sh_link=4, sh_info=1)       # 5
+    defs = dict(
+        info=lambda: img.section('.debug_info', sh_type=1, sh_offset=doff, sh_size=12),
+        abbrev=lambda: img.section('.debug_abbrev', sh_type=1, sh_offset=abbr, sh_size=1),
+        strtab=lambda: img.section('.strtab', sh_type=3, sh_offset=stroff, sh_size=3),
+        symtab=lambda: img.section('.symtab', sh_type=2, sh_offset=symoff, sh_size=48, sh_entsize=24, sh_link=idx['strtab'], sh_info=1),
+        rela=lambda: img.section(relname, sh_type=4, sh_offset=reloff, sh_size=24, sh_entsize=24, sh_link=idx['symtab'], sh_info=idx['info']))
+    for name in sorted(idx, key=idx.get):
+        assert defs[name]() == idx[name]
     img.add_shstrtab()
     elf = EF.ELFFile(ctx.stream(img.build()))
     di = elf.get_dwarf_info(relocate_dwarf_sections=relocate)
@@ -372,6 +380,6 @@ HARNESSES = [
       desc='_do_apply_relocation on a 16-byte symbolic section: per machine x class x byte order x REL/RELA x each supported type and "any other type" (symbolic): '
            'field = psABI formula mod 2^width, every other byte unchanged; unsupported type / wrong flavour / symbol index out of range -> ELFRelocationError with the bytes untouched',
       bounds={'all': 'symbol value, addend, in-place bytes symbolic at full width; r_offset 0..8; symbol index 0..3 over a 2-entry table'}),
-    H('h8_5_plumbing', h_plumbing, lambda tier: [dict(relname=n, relocate=r) for n in ('.rela.debug_info', '.rela.debug_infoX', '.rela.text') for r in (True, False)], expect=('ok',),
+    H('h8_5_plumbing', h_plumbing, lambda tier: [dict(relname=n, relocate=r, order=o) for n in ('.rela.debug_info', '.rela.debug_infoX', '.rela.text') for r in (True, False) for o in ('after', 'before')], expect=('ok',),
       desc='generated relocatable x86-64 image: get_dwarf_info(relocate_dwarf_sections) applies exactly the .rela<name> section to the copy handed to DWARFInfo and never touches the file'),
 ]
